@@ -182,7 +182,7 @@ mcls_st = st.sampled_from(MUTABLE)
 # promotable operands
 
 PROMO_KINDS = ['str_bin', 'str_hex', 'bytes', 'bytearray', 'memoryview', 'list', 'tuple', 'bitarray', 'Bits', 'BitArray',
-               'ConstBitStream', 'BitStream', 'array', 'gen', 'frozenbitarray', 'BytesIO']
+               'ConstBitStream', 'BitStream', 'array', 'gen', 'frozenbitarray', 'BytesIO', 'list_truthy', 'iter_truthy', 'map_truthy']
 
 
 def promo_ok(kind, bits):
@@ -219,6 +219,16 @@ def make_promotable(kind, bits):
         return tuple(int(c) for c in bits)
     if kind == 'gen':
         return (c == '1' for c in bits)
+    if kind in ('list_truthy', 'iter_truthy', 'map_truthy'):
+        # an iterable is documented to be evaluated item by item for truth: use items other than 0/1/True/False
+        T = [2, 'x', -1, 1.5, [0], (None,), True, 7]
+        F = [0, '', None, [], 0.0, (), False, {}]
+        items = [(T if c == '1' else F)[(i * 7 + len(bits)) % 8] for i, c in enumerate(bits)]
+        if kind == 'list_truthy':
+            return items
+        if kind == 'iter_truthy':
+            return iter(items)
+        return map(lambda v: v, items)
     if kind == 'bitarray':
         return bitarray.bitarray(bits)
     if kind == 'frozenbitarray':
@@ -362,3 +372,24 @@ def _build_route(clsname, bits, route, salt=0):
         bs.Bits('0b' + bits)
         return c('0b' + bits)
     raise HarnessError('unknown route ' + route)
+
+
+# ---------------------------------------------------------------------------------------------
+# large contents are stored compactly in the case (unit repeated to n bits) and expanded at run time
+
+BIG_SIZES = [32767, 32768, 32769, 65535, 65536, 65537, 262144, 524287, 524288, 524289, 524296, 600000, 1048575, 1048576, 1048577, 1100003]
+
+
+def expand_bits(x):
+    if isinstance(x, dict):
+        u = x['unit']
+        return (u * (x['n'] // len(u) + 1))[:x['n']]
+    return x
+
+
+@st.composite
+def big_bits_st(draw):
+    unit = draw(st.text('01', min_size=1, max_size=67))
+    if '1' not in unit or '0' not in unit:
+        unit = unit + '01'
+    return {'unit': unit, 'n': draw(st.sampled_from(BIG_SIZES))}
